@@ -61,7 +61,16 @@ def judge(jobs, sp):
             seen[k] = len(uniq)
             uniq.append({"id": len(uniq), "sid": j["sid"], "ty": j["ty"], "ref": j["ref"], "out": j["out"]})
         alias.setdefault(seen[k], []).append(j["id"])
+    key = hashlib.sha256((json.dumps(uniq, sort_keys=True) + open(sp).read() + c.spec_hash("PbJudge", "pbjudge")).encode()).hexdigest()[:24]
+    cp = os.path.join(c.OUT, "cache", f"pbjudge-{key}.json")
+    if os.path.exists(cp):
+        badu = set(json.load(open(cp)))
+        bad = set()
+        for u in badu:
+            bad.update(alias[u])
+        return bad, len(uniq)
     bad = set()
+    badu = []
     for a in range(0, len(uniq), 3000):
         p = os.path.join(c.OUT, f"pbjudge-{os.getpid()}.ndjson")
         op = os.path.join(c.OUT, f"pbjudge-out-{os.getpid()}.ndjson")
@@ -73,7 +82,9 @@ def judge(jobs, sp):
         c.tlc_must_pass(res, "PbJudge")
         for row in c.read_ndjson(op):
             bad.update(alias[row["id"]])
+            badu.append(row["id"])
         os.remove(op)
+    json.dump(badu, open(cp, "w"))
     return bad, len(uniq)
 
 
@@ -124,7 +135,16 @@ def held_values_mismatch(pss, cs, dbg):
     return bad
 
 
+_ANALYSE = {}
+
+
 def analyse(tier, seed):
+    if (tier, seed) not in _ANALYSE:
+        _ANALYSE[(tier, seed)] = _analyse(tier, seed)
+    return _ANALYSE[(tier, seed)]
+
+
+def _analyse(tier, seed):
     tss, tunits, pss, punits = prepare_all(tier, seed)
     for u in punits:
         if not u.ok:
@@ -221,3 +241,52 @@ def run_property(rep, prop, tier, seed, level):
         rep.cov["transitions"] = max(1, cov["executions"])
         rep.cov["traces_validated_against_impl"] = cov["judged_by_tlc"]
     return level
+
+
+def budget_check(rep, tier, seed, nested):
+    """The decoder's recursion-budget events (hook verif_budget) against the as-built model spec/PbBudget.tla, judged by TLC:
+    on the canonical / unknown-field cases of every message and on the nesting probes `nested` = [(sid, ty, bytes, label)]."""
+    finds, cov, cases, pss, punits, sp = analyse(tier, seed)
+    import random
+    jobs = [(cs["sid"], cs["ty"], cs["in"], cs["kind"] + "/" + cs["how"]) for cs in cases if cs["kind"] == "canon" and len(cs["in"]) <= 600]
+    unk = [(cs["sid"], cs["ty"], cs["in"], cs["kind"] + "/" + cs["how"]) for cs in cases if cs["kind"] == "unknown" and len(cs["in"]) <= 600]
+    random.Random(seed + 5).shuffle(unk)
+    jobs += unk[: (150 if tier == "quick" else 5000)]
+    jobs += nested
+    reqs = []
+    for sid, ty, data, label in jobs:
+        path = gen.find_type(punits, sid, ty)
+        if path is None:
+            raise c.ToolError(f"no type for {sid}.{ty}")
+        reqs.append({"id": len(reqs), "ty": path, "op": "budget", "input": data})
+    out = gen.run_worker(reqs, tag="pbbudget")
+    recs = []
+    for i, (sid, ty, data, label) in enumerate(jobs):
+        r = out.get(i)
+        if r is None or r.get("tool_error"):
+            raise c.ToolError("worker: " + str(r))
+        if r.get("crash") or r.get("panic"):
+            rep.violation({"check": "budget-panic", "site": label.split(":")[0]}, {"schema": sid, "message": ty, "case": label, "input": data[:300], "observed": {k: v for k, v in r.items() if k != "alloc"}})
+            continue
+        recs.append({"id": i, "sid": sid, "ty": ty, "in": data, "ev": r["ev"], "ok": 1 if r["decoded"] else 0})
+    bad = set()
+    for a in range(0, len(recs), 2000):
+        p = os.path.join(c.OUT, f"pbbudget-{os.getpid()}.ndjson")
+        op = os.path.join(c.OUT, f"pbbudget-out-{os.getpid()}.ndjson")
+        c.write_ndjson(p, recs[a:a + 2000])
+        if os.path.exists(op):
+            os.remove(op)
+        res = c.tlc("PbBudgetJudge", env={"VERIF_TRACE": p, "VERIF_OUT": op, "VERIF_SCHEMAS": sp}, timeout=3600, xmx="6g", tag="pbbudget")
+        os.remove(p)
+        c.tlc_must_pass(res, "PbBudgetJudge")
+        bad.update(row["id"] for row in c.read_ndjson(op))
+        os.remove(op)
+    for i in sorted(bad):
+        sid, ty, data, label = jobs[i]
+        r = out[i]
+        rep.violation({"check": "budget-events", "site": label.split("/")[0].split(":")[0]},
+                      {"schema": sid, "message": ty, "case": label, "input": data[:400] if len(data) > 400 else data,
+                       "decoder_events": r["ev"][:60], "decoded": r["decoded"], "err": r.get("err")})
+    nev = sum(len(out[i]["ev"]) for i in range(len(jobs)) if out.get(i) and "ev" in out[i])
+    return {"recursion_budget_traces": {"decodes_judged": len(recs), "budget_events_judged": nev, "rejected": len(bad),
+                                        "model": "spec/PbBudget.tla: exact sequence of (check | enter, count) events per call site"}}
